@@ -72,6 +72,7 @@ PROP = {  # subject prefix -> (properties, what failed before the repair)
  "mean of timestamps keeps whole-number arithmetic": ("C01 C07", "GroupBy.mean of datetime/timedelta values: one empty group (count 0) - or the null-key slot of transform=True - turned the whole column's division into a float one, rounding present-day timestamps to multiples of 256 ns (mean of one timestamp != that timestamp)"),
  "margins of a mean of datetime / timedelta values": ("C01 C14", "GroupBy.mean(datetimes, margins=True) raised TypeError ('DatetimeArray' does not support 'sum'); 'All' rows of a timedelta mean were summed in floating point"),
  "margins of a sum of timedelta values are added up": ("C14", "GroupBy.sum(timedeltas above 2**53 ticks, margins=True): the 'All' rows went through pandas' floating-point sum of timedeltas and were off by a tick"),
+ "margins are refused when a group is itself labelled": ("C14", "GroupBy(np.array(['All','b','All','c'])).sum([1,2,4,8], margins=True) returned {'All': 15, 'b': 2, 'c': 8}: the total silently replaced the value (5) of the group labelled 'All'"),
  "nanmean of integers is averaged in float64": ("C20", "nanops.nanmean of int64 values whose total leaves the 64-bit range (six epoch-nanosecond values) returned the wrapped total / n"),
  "nanvar / nanstd use two passes": ("C20", "nanops.nanvar([1e8+1, 1e8+2, 1e8+3]) = 0.0, negative variances / nanstd NaN for epoch-second sized data, int64 squares wrapped: the one-pass formula sum(x^2) - sum(x)^2/n"),
  "rolling sum / mean keep a compensation term": ("C09", "rolling_sum([1e16, 1, 1, 1], window=2) ended in 1.0 instead of 2.0 for every later row: add / subtract running sums kept the rounding error of every value that ever passed through the group"),
